@@ -937,7 +937,7 @@ def classify(c, io, drv):
 def _classify(c, io, drv):
     if c["entry"] == "call2":
         return _classify2(c, io, drv)
-    if _d22(c) and "err" not in io and "out" in drv.get("spec", {}) and io.get("ir") == drv.get("model", {}).get("ir"):
+    if _d22(c) and io.get("stage", "iter") == "iter" and "out" in drv.get("spec", {}) and io.get("ir") == drv.get("model", {}).get("ir"):
         # the generated source is right, one Stream object sits behind several loop arguments
         pd_src = [v["src"] for _, v in c["numpdiv"] if is_src(v)][0]
         k = len(io.get("out", []))
@@ -1111,7 +1111,7 @@ def _decorate(rng, c, history=False):
             g = dict((k, v) for k, v in c["den"])[min(stored)]
             gain_src = g["src"] if is_src(g) else None
         for i, d in enumerate(c["srcs"]):
-            if rng.random() < 0.3:
+            if rng.random() < 0.45:
                 if i == gain_src:
                     d["as"] = "thub"
                 else:
@@ -1136,8 +1136,8 @@ def _decorate(rng, c, history=False):
             c["srcs"].append(_source(rng, n, GVAL_POOL, early=False))
             c["setden0"] = {"src": len(c["srcs"]) - 1}
     # the numerator divided by a Poly
-    elif (plain and c["route"] in ("dict", "linear") and rng.random() < 0.07
-          and all(d.get("as", "stream") in ("stream", "thub") for d in c["srcs"])):
+    elif (plain and c["route"] in ("dict", "linear") and rng.random() < 0.12
+          and all(d.get("as", "stream") in ("stream", "thub") for d in c["srcs"]) and not _raising(c)):
         r = rng.random()
         d = rng.choice([0, 0, 1, -1])
         if r < 0.15:
@@ -1253,8 +1253,20 @@ def _expr_case(rng, max_len):
     n = rng.choice([0, 1, 2, 3, 5, rng.randint(0, max_len)])
     srcs = []
     tree = _filter_tree(rng, srcs, n, rng.choice([1, 1, 2, 2, 3]))
-    return {"entry": "expr", "tree": tree, "srcs": srcs, "mem": None,
-            "zero": rng.choice(["0/1", "0/1", "0/1", "7/1"]), "xs": [_sample(rng) for _ in range(n)]}
+    c = {"entry": "expr", "tree": tree, "srcs": srcs, "mem": None,
+         "zero": rng.choice(["0/1", "0/1", "0/1", "7/1"]), "xs": [_sample(rng) for _ in range(n)]}
+    if rng.random() < 0.3:
+        # call shape / spelling of the zero value / a leaf source that raises in the middle
+        r = rng.random()
+        c["shape"] = "pos" if r < 0.4 else "kwnone" if r < 0.6 else "nozero" if val(c["zero"]) == 0 else "posmem"
+        c["zspell"] = rng.choice(["frac", "int", "bool", "float"])
+        fin = [d for d in srcs if d["kind"] == "finite"]
+        if fin and rng.random() < 0.4:
+            d = rng.choice(fin)
+            if len(d["vals"]) >= n and n > 0:
+                d["vals"] = d["vals"][:rng.randint(0, n - 1)]
+            d["kind"] = "raising"
+    return c
 
 
 def generate(rng, tier, scale=1):
